@@ -237,15 +237,61 @@ Theorem C08_report_layer_conservative :
 Proof. exact drun_nodead. Qed.
 Print Assumptions C08_report_layer_conservative.
 
-(* What the remaining protocols observe when report_connection_established meets a dead protocol
-   (known finding, class 1 = F-C07b): the report fails and the connection is given up; nothing of
-   it is left waiting; every protocol has either been told "established" exactly once — precisely
-   the live protocols polled before the dead one whose channel had room — or nothing at all. *)
-Theorem C08_established_meets_dead_protocol :
+(* Since fix 2c7c81a (F-C07b): report_connection_established with dead protocols in the table —
+   every LIVE protocol is handed "established" exactly once (send_one: queued, or waiting for room
+   like any other report), dead ones are skipped, and the report does not fail: its result is
+   "completed" or "waiting for room", never an error, whatever the poll order (the mask). *)
+Theorem C08_established_skips_dead :
+  forall d c mask,
+  busy (d_s d) c = false -> d_gone d = [] ->
+  let d' := fst (dstep d (DEst c mask)) in
+  let out := snd (dstep d (DEst c mask)) in
+  do_code out = (if busy (d_s d') c then 1 else 0) /\
+  d_dead d' = d_dead d /\
+  forall p ch', nth_error (r_ch (d_s d')) p = Some ch' ->
+    exists ch, nth_error (r_ch (d_s d)) p = Some ch /\
+               ch' = if is_dead d (N.of_nat p) then ch else send_one (r_cap (d_s d)) c (IEst c) ch.
+Proof. exact est_skips_dead. Qed.
+Print Assumptions C08_established_skips_dead.
+
+(* ... and a later "closed" reaches exactly the same set: every live protocol, once *)
+Theorem C08_closed_reaches_live :
+  forall d c,
+  busy (d_s d) c = false -> d_gone d = [] ->
+  let d' := fst (dstep d (DBase (RClosed c))) in
+  do_code (snd (dstep d (DBase (RClosed c)))) <> 2 /\
+  d_dead d' = d_dead d /\
+  forall p ch', nth_error (r_ch (d_s d')) p = Some ch' ->
+    exists ch, nth_error (r_ch (d_s d)) p = Some ch /\
+               ch' = if is_dead d (N.of_nat p) then ch else send_one (r_cap (d_s d)) c (IClosed c) ch.
+Proof. exact closed_reaches_live. Qed.
+Print Assumptions C08_closed_reaches_live.
+
+(* the repaired code never gives a connection up: d_gone stays empty *)
+Theorem C08_no_connection_given_up :
+  forall d o, d_gone d = [] -> d_gone (fst (dstep d o)) = [].
+Proof. exact gone_stays_nil. Qed.
+Print Assumptions C08_no_connection_given_up.
+
+(* Pinning the repair: the code BEFORE the fix (dstep_before_fix) told the protocols polled before
+   the dead one "established", failed, and gave the connection up — a later "closed" report was
+   refused, so those protocols kept a peer connected for ever (F-C07b). The same history on the
+   code as it is: everybody alive is told established and then closed. *)
+Theorem C08_established_before_fix_refuted :
+  let l := [DKill 0; DEst 7 2; DBase (RClosed 7); DBase (RDrain 1 9)] in
+  (map do_code (drun_before_fix (dinit 2 2) l) = [0; 3; 2; 0] /\
+   map do_got (drun_before_fix (dinit 2 2) l) = [[]; []; []; [IEst 7]]) /\
+  (map do_code (drun (dinit 2 2) l) = [0; 0; 3; 0] /\
+   map do_got (drun (dinit 2 2) l) = [[]; []; []; [IEst 7; IClosed 7]]).
+Proof. vm_compute. repeat split; reflexivity. Qed.
+Print Assumptions C08_established_before_fix_refuted.
+
+(* what the pre-fix function did in general (kept for the record of the finding) *)
+Theorem C08_established_before_fix_observation :
   forall d c mask,
   d_dead d <> [] -> busy (d_s d) c = false -> existsb (N.eqb c) (d_gone d) = false ->
-  let d' := fst (dstep d (DEst c mask)) in
-  do_code (snd (dstep d (DEst c mask))) = 3 /\
+  let d' := fst (dstep_before_fix d (DEst c mask)) in
+  do_code (snd (dstep_before_fix d (DEst c mask))) = 3 /\
   d_dead d' = d_dead d /\ d_gone d' = c :: d_gone d /\
   (forall p ch', nth_error (r_ch (d_s d')) p = Some ch' ->
      exists ch, nth_error (r_ch (d_s d)) p = Some ch /\ rw ch' = rw ch /\ rdel ch' = rdel ch /\
@@ -254,10 +300,10 @@ Theorem C08_established_meets_dead_protocol :
          N.testbit mask (N.of_nat p) = true /\ is_dead d (N.of_nat p) = false /\
          rw ch = [] /\ (length (rq ch) < r_cap (d_s d))%nat))).
 Proof. exact est_dead_observation. Qed.
-Print Assumptions C08_established_meets_dead_protocol.
+Print Assumptions C08_established_before_fix_observation.
 
 (* ... and "closed" for that connection can only come from an explicit report_connection_closed,
-   which is never issued for a connection that was given up (every report on it is refused) *)
+   (and no connection is given up any more, C08_no_connection_given_up) *)
 Theorem C08_no_closed_without_report :
   forall d o c p ch ch',
   nth_error (r_ch (d_s d)) p = Some ch -> nth_error (r_ch (d_s (fst (dstep d o)))) p = Some ch' ->
@@ -265,15 +311,6 @@ Theorem C08_no_closed_without_report :
   ~ In (IClosed c) (racc ch) -> ~ In (IClosed c) (racc ch').
 Proof. exact only_closed_reports_closed. Qed.
 Print Assumptions C08_no_closed_without_report.
-
-(* the witness of the class: protocol 0 dead, protocol 1 polled first — it is told "established"
-   for connection 7, the report fails, a later "closed" report for 7 is refused *)
-Theorem C08_dead_protocol_leak_witness :
-  let l := [DKill 0; DEst 7 2; DBase (RClosed 7); DBase (RDrain 1 9)] in
-  map do_code (drun (dinit 2 2) l) = [0; 3; 2; 0] /\
-  map do_got (drun (dinit 2 2) l) = [[]; []; []; [IEst 7]].
-Proof. vm_compute. split; reflexivity. Qed.
-Print Assumptions C08_dead_protocol_leak_witness.
 
 (* Without C06's "at most two connections per peer" the statement is false: with three, closing
    the ignored third drops the live secondary (secondary.take() on an unknown id), and the
